@@ -82,6 +82,24 @@ service!(S3, 3, [Ping => 1, |m: &Ping| m.n; Other => 2, |m: &Other| m.text.len()
 service!(G1, "gamma", 4, [Ping => 1, |m: &Ping| m.n]);
 service!(G2, "gamma", 5, [Other => 2, |m: &Other| m.text.len() as u32]);
 
+/// A generic service that keeps the trait's default name — the type name, which contains
+/// `<`, `>` and `::` (as datacake's own `ConsistencyService<S>` does); added after C13-g.
+pub struct Gen<T>(pub std::marker::PhantomData<T>);
+impl<T: Send + Sync + 'static> RpcService for Gen<T> {
+    fn register_handlers(registry: &mut ServiceRegistry<Self>) {
+        registry.add_handler::<Ping>();
+    }
+}
+#[datacake_rpc::async_trait]
+impl<T: Send + Sync + 'static> Handler<Ping> for Gen<T> {
+    type Reply = Tagged;
+    async fn on_message(&self, msg: Request<Ping>) -> Result<Tagged, Status> {
+        let m = msg.deserialize_view().map_err(Status::internal)?;
+        Ok(Tagged { service: 6, message: 1, echo: m.n })
+    }
+}
+type Gen6 = Gen<Other>;
+
 #[derive(Clone, Copy, Debug, PartialEq, Eq)]
 enum Ev {
     Add(u8),
@@ -90,16 +108,18 @@ enum Ev {
 
 /// Add(1..=3) = S1..S3, Add(4) = G1, Add(5) = G2; Remove(1..=3) by the service's own name,
 /// Remove(4) = remove the shared name "gamma".
-const EVENTS: [Ev; 9] = [
+const EVENTS: [Ev; 11] = [
     Ev::Add(1),
     Ev::Add(2),
     Ev::Add(3),
     Ev::Add(4),
     Ev::Add(5),
+    Ev::Add(6),
     Ev::Remove(1),
     Ev::Remove(2),
     Ev::Remove(3),
     Ev::Remove(4),
+    Ev::Remove(6),
 ];
 
 fn ev_json(e: &Ev) -> J {
@@ -137,6 +157,7 @@ async fn probe(service: u8, message: u8) -> Result<Option<(u32, u32, u32)>, Stri
                 .map(|v| tag(&v)),
         ),
         (4, 1) => as_result(RpcClient::<G1>::new(channel).send(&Ping { n: 44 }).await.map(|v| tag(&v))),
+        (6, 1) => as_result(RpcClient::<Gen6>::new(channel).send(&Ping { n: 46 }).await.map(|v| tag(&v))),
         (5, 2) => as_result(
             RpcClient::<G2>::new(channel)
                 .send(&Other { text: "gamma!".into() })
@@ -147,7 +168,7 @@ async fn probe(service: u8, message: u8) -> Result<Option<(u32, u32, u32)>, Stri
     }
 }
 
-const PROBES: [(u8, u8, u32); 6] = [(1, 1, 41), (2, 1, 42), (3, 1, 43), (3, 2, 5), (4, 1, 44), (5, 2, 6)];
+const PROBES: [(u8, u8, u32); 7] = [(1, 1, 41), (2, 1, 42), (3, 1, 43), (3, 2, 5), (4, 1, 44), (5, 2, 6), (6, 1, 46)];
 
 async fn run_sequence(seq: &[Ev], st: &mut Stats) {
     datacake_rpc::verif::set_in_process(true);
@@ -161,6 +182,8 @@ async fn run_sequence(seq: &[Ev], st: &mut Stats) {
             Ev::Add(3) => server.add_service(S3),
             Ev::Add(4) => server.add_service(G1),
             Ev::Add(5) => server.add_service(G2),
+            Ev::Add(6) => server.add_service(Gen::<Other>(std::marker::PhantomData)),
+            Ev::Remove(6) => server.remove_service(Gen6::service_name()),
             Ev::Remove(4) => server.remove_service("gamma"),
             Ev::Remove(1) => server.remove_service(S1::service_name()),
             Ev::Remove(2) => server.remove_service(S2::service_name()),
